@@ -622,8 +622,17 @@ func (i *Install) replaceRelease(rel *release.Release) error {
 	// Update version to the next available
 	rel.Version = last.Version + 1
 
-	// Do not change the status of a failed release.
+	// Do not change the status of a failed release. A failed upgrade leaves an
+	// older revision deployed, though: that one is superseded by the new release.
 	if last.Info.Status == release.StatusFailed {
+		for _, r := range hist[1:] {
+			if r.Info.Status == release.StatusDeployed {
+				r.SetStatus(release.StatusSuperseded, "superseded by new release")
+				if err := i.recordRelease(r); err != nil {
+					return err
+				}
+			}
+		}
 		return nil
 	}
 
